@@ -1,10 +1,11 @@
 """C03 - responses are linear in the sources: superposition over sources and signal kinds.
 
   translate  lcapy/mnacpts.py `_stamp` methods -> Gen/StampsGen.v (tools/tr_stamps.py, shared with C01)
-  prove      props/C03.v      per stamp-defining class: the matrix part does not depend on the
-                              independent-source / initial-condition parameters, the right-hand side is
-                              additive and homogeneous in them (stamp_src_linear, stamp_matrix_indep_sources,
-                              stamp_res_superpose, stamp_res_scale)
+  prove      props/C03a-d.v   per stamp-defining class (src_affine_<Class>): the matrix part does not depend on the
+                              independent-source / initial-condition parameters (par pIsc, par pVoc), the right-hand
+                              side is  a * rhs(1,0) + b * rhs(0,1)  in them, success of the stamp does not depend on them
+             props/C03.v      src_affine_linear, stamp_src_linear, stamp_matrix_indep_sources, stamp_res_superpose,
+                              stamp_res_scale (additivity / homogeneity of the node and branch residuals)
              props/C03net.v   induction over the netlist: asm_src_add/_scale, mna_superposition, mna_scaling,
                               mna_response_additive/_homogeneous, mna_kill_sum (responses with all but one
                               source group zeroed sum to the whole, any grouping)
@@ -270,7 +271,7 @@ def rand_source_spec(rng, profile, nids):
 SRC_RE = re.compile(r'^([VI]\d+)\s+(\S+)\s+(\S+)\s')
 
 
-def gen_circuit(rng, profile):
+def gen_circuit(rng, profile, tier='quick'):
     base = {'ivp': 'ivp'}.get(profile, 'mixed')
     nl = netgen.gen_netlist(rng, base, size=rng.randint(2, 4), extras=rng.random() < 0.7, allow=ALLOW)
     lines = list(nl['lines'])
@@ -334,7 +335,7 @@ def gen_circuit(rng, profile):
     scale = {'src': sname, 'k': k, 'line': source_line(sname, specs[sname]['np'], specs[sname]['nm'], specs[sname], Fraction(k))}
     return {'type': 'circuit', 'netlist': lines, 'sources': specs, 'scale': scale, 'profile': profile,
             's0': '%d/%d' % (rng.randint(1, 9), rng.randint(1, 4)), 'w0': '%d/%d' % (rng.randint(1, 7), rng.randint(1, 3)),
-            'tags': nl['tags'] + [profile], 'timeout': 75}
+            'tags': nl['tags'] + [profile], 'timeout': 75 if tier == 'quick' else 300}
 
 
 def gen_container(rng):
@@ -431,11 +432,11 @@ CORPUS = [
 
 
 def gen_cases(rng, tier):
-    nc = int(os.environ.get('VERIF_NCASES', 44 if tier == 'quick' else 400))
+    nc = int(os.environ.get('VERIF_NCASES', 40 if tier == 'quick' else 400))
     profiles = ['mixed', 'dcstep', 'multi', 'sdom', 'noise', 'ac', 'res', 'ivp', 'mixed', 'multi', 'res']
     cases = [dict(c) for c in CORPUS]
     for i in range(nc):
-        cases.append(gen_circuit(rng, profiles[i % len(profiles)]))
+        cases.append(gen_circuit(rng, profiles[i % len(profiles)], tier))
     ncont = int(os.environ.get('VERIF_NCONT', 160 if tier == 'quick' else 1500))
     for i in range(ncont):
         cases.append(gen_container(rng))
@@ -1271,7 +1272,9 @@ def oracle_container(case, wr, res):
         check('group %d' % gi, d, g, False)
     # operands must not be changed by forming the sum
     for gi, (d0, d1) in enumerate(zip(wr.get('groups_before', []), wr.get('groups', []))):
-        if d0.get('dec') is not None and d1.get('dec') is not None and d0['dec'] != d1['dec']:
+        def norm(dec):
+            return [(p_['key'], p_.get('s'), p_.get('ph'), p_.get('amp'), p_.get('t') if p_['key'] != 's' else None) for p_ in dec]
+        if d0.get('dec') is not None and d1.get('dec') is not None and norm(d0['dec']) != norm(d1['dec']):
             out.append({'key': '__add__:operand-decomposition-mutated', 'case': case,
                         'what': 'group %d: decompose() of an operand changed after it was used in a sum: %s -> %s' % (
                             gi, [(p['key']) for p in d0['dec']], [(p['key']) for p in d1['dec']])})
@@ -1443,6 +1446,11 @@ def run(tier='quick', replay=None):
                     its = '[(%d%%nat, %s); (%d%%nat, %s)]' % (ia, qi((ca, Fraction(0))), ib, qi((cb, Fraction(0))))
                     chk.append(('%d/noise_add' % ci, None, 'eqc (noise_power (K:=QcIF) nsqc %s) %s' % (its, qi(P(wr['add_sq'])))))
             for label, defn, expr in chk:
+                last = label.split('/')[-1]
+                cat = ('kill_vs_zeroed_source_model' if '/kill_' in label else
+                       'mna_' + last.split('_')[0] + ('_' + last.split('_')[1] if last.startswith(('group_', 'full_')) else '') if last.startswith(('full_', 'group_')) else
+                       'container_' + re.sub(r'[^a-z_].*$', '', last.replace('|', '_')).rstrip('_'))
+                res.count('coq_check:' + cat)
                 items.append((gi, defn, expr, ci))
                 labels[gi] = (label, ci, frozenset(flags))
                 gi += 1
